@@ -161,6 +161,33 @@ func outcomeClass(o *run.Obs) string {
 	return "error-ack"
 }
 
+// aftermath runs, on the state a hostile case left behind, a deposit of the same denomination
+// followed by an ordinary transfer to a calibrated destination: a packet must not be able to
+// leave the module in a state that breaks later transfers.
+func aftermath(e *fw.Env, l *Lab, ctx sdkCtx, prev run.Transfer, setup any) {
+	denom := prev.Denom
+	if denom == world.BIG || denom == "" {
+		denom = world.USDC
+	}
+	if err := Deposit(l.W, ctx, l.W.K("carol"), denom, big.NewInt(int64(1+e.R.Intn(1000)))); err != nil {
+		return
+	}
+	// undo pauses of the setup so that the probe is expected to be executed
+	d := l.PickDest(e.R, denom)
+	t := l.NewTransfer(e.R, denom, big.NewInt(int64(1000+e.R.Intn(1_000_000))), &spec.Spec{Route: d.Make(e.R)})
+	o := run.Do(l.W, ctx, t, run.Mode{Kind: "H"})
+	e.Res.Eval()
+	e.Res.Count("aftermath:" + outcomeClass(o))
+	before := len(e.Res.Violations)
+	Universal(e.Res, o)
+	attachSetup(e.Res, before, map[string]any{"after_packet": prev, "setup": setup})
+	if o.Res.Panic != nil {
+		e.Res.Sig("aftermath|panic")
+	} else {
+		e.Res.Sig("aftermath|%s|%s", d.Name, outcomeClass(o))
+	}
+}
+
 // CheckC01 drives hostile packets from many states and watches the orbiter account.
 func CheckC01(e *fw.Env, l *Lab) {
 	n := e.N(6000, 300000)
@@ -188,6 +215,9 @@ func CheckC01(e *fw.Env, l *Lab) {
 		}
 		if i < 3 {
 			e.Res.Sample(map[string]any{"transfer": t, "setup": hs, "outcome": o.Res.String(), "delta": o.Delta.String()})
+		}
+		if i%3 == 0 {
+			aftermath(e, l, ctx, t, hs)
 		}
 	}
 	// Mode C: the orbiter middleware directly around ICS-20 (no blockibc), same oracle.
